@@ -76,6 +76,10 @@ Prefix(bits, k) == SubSeq(bits, 1, k)
    codeword has 2^(lde_bits - sum of earlier arities) points, grouped in cosets of arity *)
 LayerTreeBits(db, rb, bits, i) == db + rb - Sum(Prefix(bits, i))
 
+(* fri_verify_proof_of_work: leading zeros of the canonical 64-bit response >= proof_of_work_bits
+   + (64 - bits of the field order); the Goldilocks order has 64 bits *)
+PowOk(zeros, bits) == zeros >= bits
+
 (* ---- property-level predicates ----------------------------------------- *)
 (* the schedule is usable at all: it never folds past the degree *)
 ScheduleOk(db, bits) == /\ \A i \in 1..Len(bits) : bits[i] >= 1
